@@ -80,6 +80,13 @@ def check_perm(case):
         q = P.remove_element(p[i])
         if not _valid(q, n - 1) or tuple(q) != ref.delete_point(p, i):
             return BAD("remove_element", {"v": p[i], "got": list(q)})
+        # positions counted from the right end, as for any Python sequence (the index is used as
+        # self[index]); keyword form
+        q = P.remove(i - n)
+        if not _valid(q, n - 1) or tuple(q) != ref.delete_point(p, i):
+            return BAD("remove_negative_index", {"i": i - n, "got": list(q)})
+        if P.remove(index=i) != P.remove(i) or P.remove_element(selected=p[i]) != P.remove_element(p[i]):
+            return BAD("remove_keyword_form", {"i": i})
     if n:
         imax = p.index(n - 1)
         if tuple(P.remove()) != ref.delete_point(p, imax) or tuple(P.remove_element()) != ref.delete_point(p, imax):
